@@ -77,6 +77,23 @@ def generate(repo):
             return True
         return False
     cache_ok = cache_exact('format_date', 'temp_date_io') and cache_exact('format_datetime', 'temp_datetime_io')
+    # textual.cc apply_year_directive (serves `Y N`, `year N`, `apply year N`): the saved clock is pushed
+    # on the apply stack and the clock is put on the LAST DAY of the named year, unconditionally -
+    # the year inference of parse_date_mask_routine relies on it
+    ydir = (0, 0, False)
+    try:
+        tsrc = open(os.path.join(repo, 'src', 'textual.cc')).read()
+    except OSError:
+        tsrc = ''
+    my = re.search(r'void\s+instance_t::apply_year_directive\s*\(\s*char\s*\*\s*line\s*\)\s*\{(.*?)\n\}', tsrc, re.S)
+    if my:
+        yb = re.sub(r'//[^\n]*', '', my.group(1))
+        yb = re.sub(r'\s+', ' ', yb).strip()
+        mm = re.fullmatch(r'try \{ unsigned short year\(lexical_cast<unsigned short>\(skip_ws\(line\)\)\); '
+                          r'apply_stack\.push_front\(application_t\("year", epoch\)\); (?:DEBUG\([^;]*\); )?'
+                          r'epoch = datetime_t\(date_t\(year, (\d+), (\d+)\)\); \} catch ?\(bad_lexical_cast ?&\) \{ .* \}', yb)
+        if mm:
+            ydir = (int(mm.group(1)), int(mm.group(2)), True)
     text = ['(* GENERATED by harness/translators/c14_formats.py from src/times.cc - do not edit *)',
             'From Coq Require Import ZArith List.', 'Import ListNotations.', 'Local Open Scope Z_scope.',
             '(* times_initialize: readers.push_back(... new date_io_t(FMT, true)), in order *)',
@@ -96,5 +113,9 @@ def generate(repo):
             '(* format_date / format_datetime look a custom format up in their cache by exact key, so the text a',
             '   format produces depends on the format string alone, not on the formats used earlier in the run *)',
             'Definition src_format_cache_exact_match : bool := %s.' % ('true' if cache_ok else 'false (* unrecognised *)'),
+            '(* textual.cc apply_year_directive: epoch = datetime_t(date_t(year, MONTH, DAY)), with no condition *)',
+            'Definition src_year_directive_month : Z := %d.' % ydir[0],
+            'Definition src_year_directive_day : Z := %d.' % ydir[1],
+            'Definition src_year_directive_unconditional : bool := %s.' % ('true' if ydir[2] else 'false (* unrecognised *)'),
             '']
     return {'DateFormats.v': '\n'.join(text)}
